@@ -371,3 +371,46 @@ def run(prog, rep, tier):
 
     # ---------------- R13.4 no decoder-produced zero count mid-stream
     decoder_zero_count_rule(prog, rep, 'R13.4')
+
+    # ---------------- R13.8 an error of the destination keeps its kind on the way up (write_all / io::copy / brotli retry only `Interrupted`)
+    r13_8(prog, rep)
+
+
+IOERR = ('std::io::Error', '&std::io::Error', '&mut std::io::Error')
+
+
+def r13_8(prog, rep, RULE='R13.8'):
+    """Everything above the raw layer retries a write only when the error kind is Interrupted (std's write_all, io::copy, brotli's writer loop). So no body
+    on the write path may build a *new* io::Error out of an io::Error it received unless the new one takes its kind from the old one's kind()."""
+    roots = [b for b in prog.bodies(('mla', 'mla-bindings-c')) if b.impl_trait == 'std::io::Write' and b.kind != 'Closure']
+    scope = [b for b in reachable_bodies(prog, roots) if b.pkg in ('mla', 'mla-bindings-c')]
+    rep.floor(RULE + '.roots', len(roots), 5, '`impl Write` bodies of the writer layers')
+    nctor = 0
+    for body in scope:
+        for b in body.calls():
+            t = b.term
+            cn = cnorm(t)
+            is_ctor = cn in ('std::io::Error::new', 'std::io::Error::other') or (t.cmethod == 'from' and 'std::io::Error' in (t.callee.get('self_ty') or '') and
+                                                                                  t.args and 'ErrorKind' in body.lty(t.args[0].place[0]) if t.args and t.args[0].place is not None else False)
+            if not is_ctor:
+                continue
+            nctor += 1
+            rep.fn(body)
+            src = set()
+            for a in t.args:
+                if a.place is None:
+                    continue
+                o = origins(body, [a.place[0]])
+                src |= {l for l in o.locals if body.lty(l) in IOERR}
+            if not src:
+                continue
+            kind_kept = False
+            if cn == 'std::io::Error::new' and t.args[0].place is not None:
+                ko = origins(body, [t.args[0].place[0]])
+                kind_kept = any(cnorm(body.blocks[c].term) == 'std::io::Error::kind' for c in ko.calls)
+            rep.ob(RULE, kind_kept, RULE + '|%s|%s|io-error-rebuilt-from-io-error' % (body.nkey, cn.split('::')[-1]),
+                   'an io::Error is rebuilt from another one with the kind taken from kind()' if kind_kept else
+                   'a new io::Error is built from an io::Error received on the write path without taking over its kind: `Interrupted` from the destination '
+                   'becomes a fatal error for write_all / io::copy / the brotli writer, which retry only that kind', body.loc(b.idx))
+    rep.note(RULE + ': %d bodies reachable from the writer `impl Write`s scanned, %d io::Error constructions inspected' % (len(scope), nctor))
+    rep.floor(RULE + '.scope', len(scope), 20, 'bodies reachable from the writer `impl Write`s')
